@@ -407,6 +407,20 @@ fn validate_ta_ref(ctx: &mut Ctx, der_bytes: &[u8], strict: bool, now: i64) -> O
     })
 }
 
+/// Validates an EE certificate through the detached-EE entry point.
+fn validate_detached(ctx: &mut Ctx, der_bytes: &[u8], issuer: &ResourceCert, strict: bool, now: i64) -> Option<Outcome> {
+    ctx.no_panic("validate-detached-ee", || json!({"cert": hex(der_bytes), "now": now, "strict": strict}), move || {
+        let cert = match Cert::decode(der_bytes) {
+            Ok(c) => c,
+            Err(e) => return Outcome::Rejected(format!("decode: {}", e)),
+        };
+        match cert.validate_detached_ee_at(issuer, strict, time_at(now)) {
+            Ok(rc) => Outcome::Accepted(Some(rc)),
+            Err(e) => Outcome::Rejected(e.to_string()),
+        }
+    })
+}
+
 #[allow(clippy::too_many_arguments)]
 fn validate_ns(ctx: &mut Ctx, w: &World, kind: Kind, der_bytes: &[u8], issuer: Option<&ResourceCert>, strict: bool, now: i64, nanos: u32) -> Option<Outcome> {
     let what = format!("validate-{:?}", kind).to_lowercase();
@@ -450,6 +464,18 @@ fn expect_reject(ctx: &mut Ctx, w: &World, variant: &str, kind: Kind, der_bytes:
     let out = validate(ctx, w, kind, der_bytes, issuer, strict, now);
     if let Some(Outcome::Rejected(e)) = &out {
         ctx.sample(&format!("tamper-{}", variant), || json!({"variant": variant, "kind": format!("{:?}", kind), "now": now, "observed": format!("rejected: {}", e)}));
+    }
+    if kind == Kind::Ee {
+        if let Some(iss) = issuer {
+            ctx.eval();
+            if let Some(Outcome::Accepted(_)) = validate_detached(ctx, der_bytes, iss, strict, now) {
+                ctx.violation(
+                    &format!("C01:accepts:{}:detached-ee", variant),
+                    &format!("validate_detached_ee_at accepted a certificate with a single non-conforming input ({})", variant),
+                    json!({"variant": variant, "cert": hex(der_bytes), "now": now, "strict": strict, "case": detail}),
+                );
+            }
+        }
     }
     if let Some(Outcome::Accepted(_)) = out {
         ctx.violation(
@@ -642,6 +668,16 @@ fn run_chain(ctx: &mut Ctx, w: &World, rng: &mut Rng, chain_no: u64) {
             }
             (None, _) => None,
         };
+        if kind == Kind::Ee {
+            if let Some(eff) = &want {
+                ctx.eval();
+                match validate_detached(ctx, &d, &node.rc, strict, now) {
+                    Some(Outcome::Accepted(Some(rc))) => check_resources(ctx, "detached-ee", &rc, eff, &node.eff, &detail),
+                    Some(Outcome::Rejected(e)) => ctx.violation("C01:rejects-conforming:detached-ee", "a correctly issued EE certificate was rejected by validate_detached_ee_at", json!({"error": e, "cert": hex(&d), "case": detail})),
+                    _ => {}
+                }
+            }
+        }
         if want.is_none() {
             break;
         }
@@ -686,6 +722,28 @@ fn tampers(ctx: &mut Ctx, w: &World, rng: &mut Rng, spec: &Spec, d: &[u8], issue
                 "a certificate was accepted at an instant a fraction of a second outside its validity window",
                 json!({"variant": variant, "cert": hex(d), "seconds": t, "nanos": ns, "case": detail}),
             );
+        }
+    }
+    // 1c. notBefore and notAfter swapped in the encoding (re-signed): the window is
+    // empty, so no instant lies inside it
+    if spec.not_before < spec.not_after {
+        if let Some(root) = der::parse(d) {
+            if let Some(tbs) = root.child(0) {
+                // Validity is the SEQUENCE of two time values among the TBS children
+                let vidx = tbs.children.iter().position(|c| c.tag == der::T_SEQUENCE && c.children.len() == 2 && c.children.iter().all(|t| t.tag == der::T_UTCTIME || t.tag == der::T_GENTIME));
+                if let Some(vidx) = vidx {
+                    let v = &tbs.children[vidx];
+                    let swapped = der::seq(&[v.children[1].whole(d), v.children[0].whole(d)]);
+                    let tbs_bytes = tbs.whole(d).to_vec();
+                    let tbs_root = der::parse(&tbs_bytes).unwrap();
+                    let new_tbs = der::replace_node(&tbs_bytes, &tbs_root, &[vidx], &swapped);
+                    if let Some(x) = resign(w.pool, d, &new_tbs, issuer.key) {
+                        for t in [now, spec.not_before, spec.not_after, (spec.not_before + spec.not_after) / 2] {
+                            expect_reject(ctx, w, "window-inverted", kind, &x, Some(&issuer.rc), strict, t, detail);
+                        }
+                    }
+                }
+            }
         }
     }
     // 2. AKI missing / different, correctly re-signed by the issuer
